@@ -806,6 +806,11 @@ impl Drop for Sleep {
 
 pub struct YieldNow(bool);
 
+/// Yield once to the scheduler (no world handle needed).
+pub fn yield_once() -> YieldNow {
+    YieldNow(false)
+}
+
 impl Future for YieldNow {
     type Output = ();
     fn poll(mut self: Pin<&mut Self>, cx: &mut Context<'_>) -> Poll<()> {
